@@ -91,6 +91,9 @@ def directed_cases():
         # an exception class that is private to the SUT module inside pytest.raises(...)
         case("privexc", 0, "SIMPLE", iters=5),
         case("privexc", 1, "SIMPLE", no_xfail=True, iters=5, black=False),
+        # __all__ leaves out an enum class whose members are asserted values
+        case("allenum", 0, "SIMPLE", iters=5),
+        case("allenum", 1, "SIMPLE", no_xfail=True, iters=5),
         # fault injection: every assertion-filtering execution times out (what machine load does); the written file must
         # still pass, i.e. no unverified state-dependent assertion (class counters, ids) may be exported
         case("account", 0, "SIMPLE", fault="filter_execution_times_out"),
